@@ -268,7 +268,7 @@ func c06ConcCheck(sc ConcScenario) func(res *ConcResult, races []RaceReport) (st
 }
 
 func c06(env *Env, rep *Report) {
-	rep.Rule = "(a) sequential, both transports: client data packets of payload sizes {0,1,2,4085,4086,4087,4096,8192,65535} alone, in every ordered pair, and selected triples, paced and in bursts, the stream of each pair also cut at offsets {1,7,8,9,10,len-1} of the second packet; data packets whose length field is actual-1, actual+1, 0, 0xFFFF; host writes of sizes {1,4086,4087,8192,65535} alone and in pairs; host reads that return no bytes and no error between ordinary ones; a host that stops reading until its window is full and every gateway deadline has fired, then reads again. " +
+	rep.Rule = "(a) sequential, both transports: client data packets of payload sizes {0,1,2,4085,4086,4087,4096,8192,65535} alone, in every ordered pair, and selected triples, paced and in bursts, the stream of each pair also cut at offsets {1,7,8,9,10,len-1} of the second packet; data packets whose length field is actual-1, actual+1, 0, 0xFFFF, and data packets too short to hold the length field (0 or 1 body bytes); host writes of sizes {1,4086,4087,8192,65535} alone and in pairs; host reads that return no bytes and no error between ordinary ones; a host that stops reading until its window is full and every gateway deadline has fired, then reads again. " +
 		"Oracle: bytes at the host == concatenation of the declared payloads (for a length field larger than the bytes carried: nothing but carried bytes may be delivered for that packet); payloads of the data packets at the client == bytes the host wrote; every data packet to the client well-formed (header length == bytes sent, payload-length field == payload). " +
 		"(b) schedules: one tunnel, client sends 2 data packets + keep-alive while the host writes 2 chunks; every schedule up to the preemption bound; both streams must arrive complete and in order; the client closing the channel while the host still writes (what arrives before the close response is a prefix of the host's stream, every packet well-formed); two tunnels whose hosts write at the same time (deviation bound). (c) on the real binary over real sockets: 6 MiB client to host in 32 KiB data packets, then an orderly channel close, to a host that starts reading 400 ms late: the host receives every byte and an orderly end. distinct_nontrivial = distinct cases (a) + distinct observations (b)."
 	rep.Assumptions = append(rep.Assumptions, "'several MiB' is bounded to 3 x 65535 bytes per direction", "byte patterns are position dependent (i*3+seed) so that reordering, duplication and loss change the stream")
@@ -311,6 +311,18 @@ func c06(env *Env, rep *Report) {
 					}
 					cases = append(cases, c06Case{Name: fmt.Sprintf("length-field-%d-carries-%d", l, a), Kind: kind, ClientPkts: [][]byte{tsgu.DataRaw(uint16(l), p), hp}, Declared: [][]byte{decl, hd}, Carried: [][]byte{p, hd}})
 				}
+			}
+		}
+		// data packets too short to hold their own payload-length field (no body, one byte of it), alone,
+		// followed and preceded by an honest packet: they declare and carry no payload
+		{
+			hp, hd := mk(5, 33)
+			for _, body := range [][]byte{{}, {0x00}, {0x05}, {0xFF}} {
+				short := tsgu.Packet(tsgu.TypeData, body)
+				nm := fmt.Sprintf("data-packet-with-%d-body-bytes-%x", len(body), body)
+				cases = append(cases, c06Case{Name: nm + "-alone", Kind: kind, ClientPkts: [][]byte{short}, Declared: [][]byte{{}}})
+				cases = append(cases, c06Case{Name: nm + "-then-honest", Kind: kind, ClientPkts: [][]byte{short, hp}, Declared: [][]byte{{}, hd}})
+				cases = append(cases, c06Case{Name: nm + "-after-honest", Kind: kind, ClientPkts: [][]byte{hp, short, hp}, Declared: [][]byte{hd, {}, hd}, Burst: true})
 			}
 		}
 		if kind == "legacy" {
